@@ -80,6 +80,12 @@ claim('C14', 'devx-grid',
       'Grid of inflated sizes {1, 8, 32, 64 MiB; thorough adds 256 MiB and 1 GiB} x padding placement {comment, text, attribute value, after the root element} x surrounding request {valid, invalid} x entry point {SSO query, SSO form, logout form, logout query}. The overlay replaces flate.NewReader by a counting pass-through reader: the bytes one inflater delivers must stay <= 20 MiB, the TotalAlloc delta across ServeHTTP must stay <= 160 MiB (measured in a single-request worker process), and a payload above the bound must not be accepted.',
       'The byte counter sits on compress/flate; if a change swaps the inflater the allocation clause still decides. Ratios/placements outside the grid rest on the observation that the cap is enforced by the reader independent of content.', '§5 C14')
 
+claim('C10', 'faultx',
+      'exhaustive fault-point enumeration: every storage call occurrence x fault kind, singles and pairs (thorough: triples), on traces re-discovered after every injected fault',
+      'For 26 endpoint scenarios (SSO unsigned/signed/POST-signed/unanswerable, callback POST/Redirect x done/pending/unknown id and x unusable configured algorithms, logout, attribute query unsigned/signed, metadata with signing off/on/unusable algorithm, certificate, ready, healthz) the fault-free run records the ordered storage call trace of the real handler; every call occurrence is then failed with every applicable kind (error, context deadline, context cancellation; key getters additionally nil record, key without certificate, certificate without key, empty certificate, garbage certificate, zero key), and every run that continues past its fault has every later occurrence failed as well. Oracle after the first injected fault: no panic, reply is HTTP 5xx or a non-Success SAML response (attribute query: 5xx), no Success assertion, no user marker anywhere in the reply, no signed metadata after a key failure, no CreateAuthRequest after the failure.',
+      'Faults are injected at the Storage interface only (the only environment seam of the library).', '§5 C10')
+C['C10']['category'] = 'fault_enumeration'
+
 NOT_YET = {i: 'check not built yet in this revision (planned: see DESIGN.md §5 %s); not claimed until its machinery exists' % i for i in ids}
 
 def main():
@@ -94,7 +100,7 @@ def main():
                 'evidence_file': 'evidence/%s.json' % i,
                 'replay_cmd_template': 'bin/check %s --replay {path}' % i,
                 'engine': c['engine'],
-                'level_claimed': {'category': 'model_checking', 'text': c['text'], 'design_ref': c['design']},
+                'level_claimed': {'category': c.get('category', 'model_checking'), 'text': c['text'], 'design_ref': c['design']},
                 'level_note': c['note'],
                 'technique': c['technique'],
             })
@@ -113,6 +119,10 @@ def main():
         'engines': [
             {'name': 'devx', 'path': 'harness/internal/devx', 'serves_properties': sorted(k for k in C if C[k]['engine'].startswith('devx')),
              'kind_free_text': 'deviation-bounded / full-product exhaustive enumeration of input and configuration shapes executed on the real code'},
+            {'name': 'bfs', 'path': 'harness/internal/props (history loops in c05/c06/c08/c13/c03/c02)', 'serves_properties': sorted(k for k in C if 'bfs' in C[k]['engine']),
+             'kind_free_text': 'explicit enumeration of event histories on one real provider (replay on a fresh world per history)'},
+            {'name': 'faultx', 'path': 'harness/internal/props/c10.go', 'serves_properties': sorted(k for k in C if C[k]['engine']=='faultx'),
+             'kind_free_text': 'exhaustive storage fault-point enumeration (singles, pairs, triples) on re-discovered call traces'},
         ],
         'checks': checks,
         'notes': 'All checks rebuild from /repo working tree through bin/check (overlay instrumentation, DESIGN.md §3). Known findings: known_findings.json.',
